@@ -5,6 +5,7 @@ import (
 	"compress/flate"
 	"encoding/binary"
 	"fmt"
+	"math"
 )
 
 func init() { runners["C13"] = runC13 }
@@ -92,6 +93,42 @@ func runC13(c *Ctx) error {
 				stream := append(hdr[:], 1, 2, 3, 4, 5, 6)
 				spec := connSpec{Server: server, RLimit: limit}
 				if err := c13One(c, spec, stream, fmt.Sprintf("server=%v limit=%d declared=%d", server, limit, decl), limit); err != nil {
+					return err
+				}
+			}
+		}
+	}
+	// "no limit" the natural way: ReadMaxPayloadSize = MaxInt (and one below): everything within it is delivered
+	for _, server := range []bool{true, false} {
+		for _, limit := range []int{math.MaxInt, math.MaxInt - 1, math.MaxInt32, math.MaxInt32 + 1} {
+			for _, pmd := range []bool{false, true} {
+				spec := connSpec{Server: server, PMD: pmd, RLimit: limit}
+				payload := bytes.Repeat([]byte("within any limit "), 130)
+				wire := payload
+				if pmd {
+					wire = rfc7692Deflate(payload, nil, 6)
+				}
+				stream := encodeFrame(frameSpec{Fin: true, Rsv1: pmd, Opcode: 2, Masked: server, Key: [4]byte{3, 1, 4, 1}, Payload: wire, DeclLen: -1})
+				stream = append(stream, dataFrame(2, true, server, []byte("second"))...)
+				if err := c13One(c, spec, stream, fmt.Sprintf("server=%v limit=%d huge-limit pmd=%v", server, limit, pmd), limit); err != nil {
+					return err
+				}
+			}
+		}
+	}
+	// control frames inside a fragmented message that is close to the limit: their payload does not count against it
+	for _, server := range []bool{true, false} {
+		for _, limit := range []int{126, 1000, 65536} {
+			for _, gap := range []int{0, 1, 10, 124} {
+				spec := connSpec{Server: server, RLimit: limit}
+				first := bytes.Repeat([]byte("f"), limit-gap-1)
+				var stream []byte
+				stream = append(stream, dataFrame(2, false, server, first)...)
+				stream = append(stream, encodeFrame(frameSpec{Fin: true, Opcode: 9, Masked: server, Key: [4]byte{9, 9, 9, 1}, Payload: bytes.Repeat([]byte("p"), 125), DeclLen: -1})...)
+				stream = append(stream, encodeFrame(frameSpec{Fin: true, Opcode: 10, Masked: server, Key: [4]byte{9, 9, 9, 2}, Payload: bytes.Repeat([]byte("q"), gap+2), DeclLen: -1})...)
+				stream = append(stream, encodeFrame(frameSpec{Fin: true, Opcode: 0, Masked: server, Key: [4]byte{2, 7, 1, 8}, Payload: bytes.Repeat([]byte("l"), gap+1), DeclLen: -1})...)
+				stream = append(stream, dataFrame(2, true, server, []byte("second"))...)
+				if err := c13One(c, spec, stream, fmt.Sprintf("server=%v limit=%d control frames inside a message %d byte(s) below the limit", server, limit, gap+1), limit); err != nil {
 					return err
 				}
 			}
